@@ -58,4 +58,44 @@ Judge_file_rt(c) ==
            \* ---- C04: stream interface actually used
            When("C04.pipeout", c.kind_out = "pipe", Subset(c.calls_out, {"write", "flush", "seekable"})),
            When("C04.seqin", c.kind_in = "seq", rd.ok /\ Subset(c.calls_in, {"read"})) >>
+
+\* ---- C06: truncated and sync-corrupted files -----------------------------------------------------
+\* op = "cuts": c.file, c.hs, c.inflate; c.pool <<V>> (distinct projected records seen);
+\*   c.cuts  << <<k, ended (0|1), ys>> >>  outcome of fastavro.reader on file[0..k)   (ys = pool indices of the records yielded, in order)
+\*   c.bcuts same for block_reader;  c.corr << <<b, i, ended, ys>> >> reader on the file with byte i of block b's sync marker altered
+\*   c.bcorr same for block_reader
+CumCounts(blocks) == FoldLeft(LAMBDA acc, b : Append(acc, (IF acc = <<>> THEN 0 ELSE acc[Len(acc)]) + b.count), <<>>, blocks)
+
+Judge_cuts(c) ==
+  LET pf == ParseFile(c.file, c.hs, c.inflate) IN
+  IF ~pf.ok THEN << Cl("H.file", "fail") >>
+  ELSE
+  LET recs == pf.records
+      nb == Len(pf.blocks)
+      cum == CumCounts(pf.blocks)
+      bnd == Boundaries(pf)
+      \* okAt[p] = positions j at which pool[p] equals the j-th written record
+      okAt == MapSeq(LAMBDA pv : { j \in 1..Len(recs) : VEq(pv, recs[j]) }, c.pool)
+      IsPrefixOfWritten(ys) == Len(ys) <= Len(recs) /\ \A j \in 1..Len(ys) : j \in okAt[ys[j]]
+      \* number of records in the blocks that end at or before offset k
+      Before(k) == LET S == { i \in 1..nb : pf.blocks[i].off + pf.blocks[i].size <= k } IN
+                   IF S = {} THEN 0 ELSE cum[CHOOSE i \in S : \A j \in S : j <= i]
+      CutOk(e) == LET k == e[1] ended == e[2] = 1 ys == e[3] IN
+                  /\ IsPrefixOfWritten(ys)
+                  /\ (ended => k \in bnd)
+                  /\ (k < pf.hend - 1 => ~ended /\ Len(ys) = 0)
+      BoundaryOk(e) == LET k == e[1] ended == e[2] = 1 ys == e[3] IN
+                       (k \in bnd) => (ended /\ Len(ys) = Before(k) /\ IsPrefixOfWritten(ys))
+      CorrOk(e) == LET b == e[1] ended == e[3] = 1 ys == e[4] IN
+                   /\ ~ended
+                   /\ IsPrefixOfWritten(ys)
+                   /\ Len(ys) <= cum[b]
+      AllOk(Op(_), es) == \A i \in 1..Len(es) : Op(es[i])
+      FirstBad(Op(_), es) == LET S == { i \in 1..Len(es) : ~Op(es[i]) } IN CHOOSE i \in S : \A j \in S : i <= j
+      Rep(name, Op(_), es) == IF Len(es) = 0 THEN Cl(name, "skip")
+                              ELSE IF AllOk(Op, es) THEN Cl(name, "ok")
+                              ELSE Cl(name \o "@" \o ToString(FirstBad(Op, es)), "fail")
+  IN << Rep("C06.cut.reader", CutOk, c.cuts), Rep("C06.cut.block_reader", CutOk, c.bcuts),
+        Rep("C05.boundary.reader", BoundaryOk, c.cuts), Rep("C05.boundary.block_reader", BoundaryOk, c.bcuts),
+        Rep("C06.sync.reader", CorrOk, c.corr), Rep("C06.sync.block_reader", CorrOk, c.bcorr) >>
 =============================================================================
